@@ -1055,6 +1055,51 @@ impl RefTerm {
 }
 
 impl RefTerm {
+    /// Re-synchronise the model with the implementation after a divergence that
+    /// belongs to another property, so that exploration can continue and later
+    /// commands are judged from the state the implementation is really in.
+    /// Returns false when the state cannot be represented (screens disagree).
+    pub fn resync(&mut self, real: &Obs, h: &avt::VerifState) -> bool {
+        if h.alternate_active != self.alt_showing() || real.size != (self.cols, self.rows) {
+            return false;
+        }
+        let n = real.rows.len();
+        if n < self.rows {
+            return false;
+        }
+        let (sb, view) = real.rows.split_at(n - self.rows);
+        let conv = |r: &RowObs| RRow { cells: r.cells.clone(), wrap: r.wrapped };
+        self.grid = view.iter().map(conv).collect();
+        self.scrollback = sb.iter().map(conv).collect();
+        self.col = real.cursor.0.min(self.cols - 1);
+        self.pending = real.cursor.0 == self.cols;
+        self.row = real.cursor.1.min(self.rows - 1);
+        self.visible = real.cursor.2;
+        self.ckm = real.ckm;
+        self.pen = PenObs::of(&h.pen);
+        self.irm = h.insert_mode;
+        self.origin = h.origin_mode;
+        self.awm = h.auto_wrap_mode;
+        self.g = h.charsets_drawing;
+        self.active = h.active_charset;
+        self.top = h.top_margin;
+        self.bottom = h.bottom_margin;
+        self.tabs = h.tabs.iter().copied().collect();
+        let conv_s = |c: &avt::VerifSavedCtx, old: &Option<Saved>| {
+            Some(Saved {
+                col: c.cursor_col,
+                row: c.cursor_row,
+                pen: PenObs::of(&c.pen),
+                origin: c.origin_mode,
+                awm: c.auto_wrap_mode,
+                any_pos: old.as_ref().map(|o| o.any_pos).unwrap_or(false),
+            })
+        };
+        self.saved = conv_s(&h.saved_ctx, &self.saved);
+        self.other_saved = conv_s(&h.other_saved_ctx, &self.other_saved);
+        true
+    }
+
     /// Compare the model's hidden components with the implementation's
     /// (read through the `verif` feature hook). Returns the first difference.
     pub fn compare_hidden(&self, h: &avt::VerifState) -> Result<(), String> {
@@ -1085,6 +1130,9 @@ impl RefTerm {
                 "margins {}..{}, expected {}..{}",
                 h.top_margin, h.bottom_margin, self.top, self.bottom
             ));
+        }
+        if h.pending_wrap != self.pending {
+            return Err(format!("pending-wrap flag {}, but the cursor column says {}", h.pending_wrap, self.pending));
         }
         let want: Vec<usize> = self.tabs.iter().copied().collect();
         if h.tabs != want {
